@@ -411,6 +411,11 @@ pub fn cases(prop: &str, seed: u64, tier: &str) -> Vec<String> {
                 }
                 out.extend(qs);
                 emit_text_queries(&mut out, &bytes, &mut r, 2, 1, 2);
+                // single-line parsers on arbitrary bytes (invalid UTF-8 included)
+                let raw = if i % 2 == 0 { raw_bytes(&mut r) } else { soup(&mut r) };
+                out.push(format!("FR {}", hex(&[&b"  at "[..], &raw[..], &b")"[..]].concat())));
+                out.push(format!("TH {}", hex(&raw)));
+                out.push(format!("R {}", hex(&raw)));
             }
         }
         "C07" => {
